@@ -34,8 +34,10 @@ pub fn file_paths(n: usize) -> Vec<PathBuf> {
         .collect()
 }
 
+/// the second fragment of every file but the first is called `Shared`: fragments are identified by
+/// (defining file, name), and equal names in different files must not be confused by the resolver
 fn frag_names(i: usize) -> [String; 2] {
-    [format!("F{i}a"), format!("F{i}b")]
+    [format!("F{i}a"), if i == 0 { format!("F{i}b") } else { "Shared".to_string() }]
 }
 
 /// relative spelling of `to` seen from `from` (variant 0 = canonical)
@@ -438,6 +440,13 @@ fn graphs(n: usize, alphabet: &'static [Edge], self_imports: bool) -> GraphIter 
 }
 
 fn random_case(case: &mut Case) -> CaseResult {
+    let (specs, paths) = random_specs(case);
+    let n = specs.len();
+    random_case_on(case, specs, paths, n)
+}
+
+/// a random import graph over 2-8 files (C17 reuses it for its order-determinism campaign)
+pub fn random_specs(case: &mut Case) -> (Vec<FileSpec>, Vec<PathBuf>) {
     let n = case.ch.range(2, 8);
     let paths = file_paths(n);
     let mut specs: Vec<FileSpec> = vec![];
@@ -446,7 +455,6 @@ fn random_case(case: &mut Case) -> CaseResult {
         let has_op = i == 0 || case.ch.chance(1, 4);
         specs.push(FileSpec { imports: vec![], n_frags, has_op });
     }
-    let _ = &mut specs;
     let allow_dup_names = case.allow("import_same_name_twice");
     for i in 0..n {
         let k = case.ch.below(4);
@@ -492,6 +500,40 @@ fn random_case(case: &mut Case) -> CaseResult {
         }
     }
     // names absent from the target (n_frags < 2) are "missing fragment" errors: fine.
+    (specs, paths)
+}
+
+/// resolves `root` and returns the (defining file, name) of every fragment definition of the result in
+/// order (None when resolution reports an error)
+pub fn resolved_order(specs: &[FileSpec], paths: &[PathBuf], root: usize) -> Result<Option<Vec<(usize, String)>>, Failure> {
+    let texts: Vec<String> = (0..specs.len()).map(|i| render_file(i, &specs[i], paths)).collect();
+    let detail = json!({"files": texts.iter().enumerate().map(|(i, t)| json!({"path": paths[i], "text": t})).collect::<Vec<_>>(), "root": root});
+    let mut parsed: Vec<Parsed> = vec![];
+    for (i, t) in texts.iter().enumerate() {
+        match guard(|| parse_cached(i, t)).map_err(|p| panic_failure("parse/resolve_operation_extensions", &p, detail.clone()))? {
+            Ok(p) => parsed.push(p),
+            Err(e) => return Err(Failure::new("harness:file-unparsable", e, detail)),
+        }
+    }
+    let res = Res { by_path: paths.iter().zip(parsed.iter()).map(|(p, d)| (p.as_path(), *d)).collect() };
+    let got = guard(|| resolve_operation_imports((paths[root].as_path(), parsed[root].0, parsed[root].1), &res))
+        .map_err(|p| panic_failure("resolve_operation_imports", &p, detail.clone()))?;
+    Ok(got.ok().map(|doc| {
+        doc.definitions
+            .iter()
+            .filter_map(|d| match d {
+                ExecutableDefinition::FragmentDefinition(f) => Some((f.position.file, f.name.name.to_string())),
+                _ => None,
+            })
+            .collect()
+    }))
+}
+
+pub fn files_json(specs: &[FileSpec], paths: &[PathBuf]) -> serde_json::Value {
+    json!((0..specs.len()).map(|i| json!({"path": paths[i], "text": render_file(i, &specs[i], paths)})).collect::<Vec<_>>())
+}
+
+fn random_case_on(case: &mut Case, specs: Vec<FileSpec>, paths: Vec<PathBuf>, n: usize) -> CaseResult {
     let roots: Vec<usize> = (0..n).collect();
     let out = check_graph(&specs, &paths, &roots)?;
     case.evals(n as u64);
